@@ -21,6 +21,11 @@ func configsFor(prop string, tier int) []string {
 		return []string{"default", "noasm", "force32bit", "appengine", "force32bit,appengine", "386"}
 	case "C18", "C19", "C16", "C09", "C10":
 		return []string{"default", "force32bit"}
+	case "C17":
+		if tier == 1 {
+			return []string{"default", "force32bit"}
+		}
+		return []string{"default"}
 	case "C20":
 		if tier == 1 {
 			return []string{"default", "noasm", "force32bit", "appengine"}
@@ -126,6 +131,9 @@ func checkProperty(prop string, tier int, tierName string, re *regexp.Regexp, cf
 		seed, _ = strconv.Atoi(s)
 	}
 	props := append([]string{prop}, depsFor(prop)...)
+	if prop == "C08" && tier == 1 {
+		props = append(props, "C17") // the batch evaluation on the 32-bit layouts (thorough tier only: ~4 min)
+	}
 	if os.Getenv("VERIF_NODEPS") != "" || re != nil {
 		props = []string{prop}
 	}
@@ -137,7 +145,9 @@ func checkProperty(prop string, tier int, tierName string, re *regexp.Regexp, cf
 		if prop == "C08" && p != "C08" {
 			// every leaf suite is re-run per configuration; the limb-level leaves depend only on the layout and
 			// the width of int, the group-level ones also on the selector / conditional-move variant
-			if p == "C18" || p == "C19" {
+			if p == "C17" {
+				pc = []string{"force32bit", "386"}
+			} else if p == "C18" || p == "C19" {
 				pc = []string{"default", "force32bit", "386"}
 			} else {
 				pc = configsFor("C08", tier)
